@@ -11,7 +11,7 @@ FILES = ["litedram/dfii.py", "litedram/phy/dfi.py", "litedram/phy/utils.py"]
 LEVEL = "model_checking"
 TECHNIQUE = ("combinational validity + non-interference queries (z3 QF_BV) on the elaborated real DFIInjector with all DFI "
              "signals and all CSR state symbolic; bounded model checking of the real DFIRateConverter over a phase-locked "
-             "two-clock schedule with a marked-command monitor")
+             "two-clock schedule with a marked-command monitor; combinational validity of DDR4DFIMux against the JEDEC ACT pin assignment")
 EXPLANATION = ("Rate converter: the real DFIRateConverter is unrolled over the phase-locked edge schedule of its two clock domains; "
                "every slow-side command/write signal and every fast-side read signal is a free variable; a monitor keeps what the "
                "slow side presented and requires, for EVERY fast cycle, that each fast phase carries exactly the slow phase "
